@@ -35,6 +35,7 @@ type FsckReport struct {
 	NIndirect      int // indirect + double-indirect blocks in use
 	HalfFreed      int // inodes with ShrinkSize beyond their size
 	HalfFreedInums []uint64
+	HalfFreedFree  []uint64        // those of them that are free inodes (objects removed while their blocks were still being freed)
 	RootBlocks     int             // blocks mapped by the root directory
 	Owned          map[uint64]bool `json:"-"` // block numbers in use by some inode
 	OwnedBlocks    int
@@ -195,6 +196,9 @@ func Fsck(fs *fstxn.FsState, opts FsckOpts) *FsckReport {
 				limit = ip.ShrinkSize
 				r.HalfFreed++
 				r.HalfFreedInums = append(r.HalfFreedInums, inum)
+				if !live {
+					r.HalfFreedFree = append(r.HalfFreedFree, inum)
+				}
 			}
 			for idx, b := range fi.data {
 				if idx >= limit {
